@@ -97,15 +97,18 @@ fn bitvec_case(cx: &mut Ctx, u: &mut Unstructured) -> R {
             1 => {
                 let got: Vec<usize> = cx.must("iter_ones", || dirty.iter_ones().collect())?;
                 cx.check(got == ones, "read.iter_ones", || format!("iter_ones over dirty storage (len {len}, {extra} extra words): got {} positions, expected {}", got.len(), ones.len()))?;
+                iter_protocol(cx, "read.iter_ones", dirty.iter_ones(), &ones, *arg as u64 ^ (len as u64) << 16)?;
             }
             2 => {
                 let want: Vec<usize> = (0..len).filter(|i| !model[*i]).collect();
                 let got: Vec<usize> = cx.must("iter_zeros", || dirty.iter_zeros().collect())?;
                 cx.check(got == want, "read.iter_zeros", || format!("iter_zeros over dirty storage (len {len}, {extra} extra words): got {} positions, expected {}", got.len(), want.len()))?;
+                iter_protocol(cx, "read.iter_zeros", dirty.iter_zeros(), &want, *arg as u64 ^ (len as u64) << 16)?;
             }
             3 => {
                 let got: Vec<bool> = cx.must("iter", || dirty.iter().collect())?;
                 cx.check(got == model, "read.iter", || "iter over dirty storage".into())?;
+                iter_protocol(cx, "read.iter", dirty.iter(), &model, *arg as u64 ^ (len as u64) << 16)?;
             }
             4 => {
                 let e = cx.must("eq", || dirty == clean)?;
@@ -389,6 +392,7 @@ fn bfv_case<W: MaybeAtomic>(cx: &mut Ctx, u: &mut Unstructured) -> R {
             0 => {
                 let got: Vec<u128> = cx.must("iter", || dirty.iter().map(|v| v.to128()).collect())?;
                 cx.check(got == model, "read.iter", || format!("iter over dirty storage (width {width}, len {len})"))?;
+                iter_protocol(cx, "read.iter", dirty.iter().map(|v| v.to128()), &model, *arg as u64 ^ (len as u64) << 16)?;
             }
             1 => {
                 let k = *arg as usize * (len + 1) >> 16;
@@ -539,7 +543,7 @@ impl Property for C14 {
         ]
     }
     fn rule(&self) -> &'static str {
-        "case = (vector kind BitVec / BitFieldVec<u8..u128,usize>, contents, width, length, garbage class (all ones / random / a single bit just past the end) in every backend bit at or beyond len*width, 0..3 extra trailing words, op list) decoded from bytes; the vector is placed over the dirty image by from_raw_parts. Read side: get, count_ones/zeros, par_count_ones, iter, iter_ones, iter_zeros, ==, to_owned, rank_hinted/select_hinted/select_zero_hinted within range, forward and reverse unchecked iterators, atomic count/iter answer exactly as over clean storage (dirty == clean, clean == dirty, dirty == differently-dirty). Write side: after every mutator (set, fill, flip, reset, par_*, copy into it, apply_in_place, writes through try_chunks_mut views, set_atomic, swap, reset_atomic, atomic fill/flip) the whole backend (as_slice / AsRef) equals model bits inside the logical region and the original garbage everywhere else. Plus an enumerated segment running every parallel bulk operation over 12.8-64 Mbit dirty backends with 0..400001 spare words (above rayon's split threshold). Non-trivial: garbage non-zero and (len*width not a multiple of the word size or extra words present); distinct = distinct hash of the decoded case."
+        "case = (vector kind BitVec / BitFieldVec<u8..u128,usize>, contents, width, length, garbage class (all ones / random / a single bit just past the end) in every backend bit at or beyond len*width, 0..3 extra trailing words, op list) decoded from bytes; the vector is placed over the dirty image by from_raw_parts. Read side: get, count_ones/zeros, par_count_ones, iter, iter_ones, iter_zeros, ==, to_owned, rank_hinted/select_hinted/select_zero_hinted within range, forward and reverse unchecked iterators, atomic count/iter answer exactly as over clean storage (dirty == clean, clean == dirty, dirty == differently-dirty). Every iterator is also driven through a generated script of next/nth/size_hint steps and one consuming adaptor (count, last, collect, step_by, skip, fold) in lock-step with the model's iterator. Write side: after every mutator (set, fill, flip, reset, par_*, copy into it, apply_in_place, writes through try_chunks_mut views, set_atomic, swap, reset_atomic, atomic fill/flip) the whole backend (as_slice / AsRef) equals model bits inside the logical region and the original garbage everywhere else. Plus an enumerated segment running every parallel bulk operation over 12.8-64 Mbit dirty backends with 0..400001 spare words (above rayon's split threshold). Non-trivial: garbage non-zero and (len*width not a multiple of the word size or extra words present); distinct = distinct hash of the decoded case."
     }
     fn run(&self, data: &[u8], cx: &mut Ctx) -> R {
         let (mode, rest) = data.split_first().unwrap_or((&0, &[]));
